@@ -311,7 +311,6 @@ func (d *CompositeSequenceDFA) SearchAt(haystack []byte, at int) (int, int, bool
 				if lastAcceptEnd > 0 {
 					return matchStart, lastAcceptEnd, true
 				}
-				start = pos - 1 // Skip: dead byte at pos, outer loop start++ → pos
 				goto nextStart
 			}
 			if accepting[state] {
@@ -326,7 +325,6 @@ func (d *CompositeSequenceDFA) SearchAt(haystack []byte, at int) (int, int, bool
 				if lastAcceptEnd > 0 {
 					return matchStart, lastAcceptEnd, true
 				}
-				start = pos // Skip: dead byte at pos+1
 				goto nextStart
 			}
 			if accepting[state] {
@@ -341,7 +339,6 @@ func (d *CompositeSequenceDFA) SearchAt(haystack []byte, at int) (int, int, bool
 				if lastAcceptEnd > 0 {
 					return matchStart, lastAcceptEnd, true
 				}
-				start = pos + 1 // Skip: dead byte at pos+2
 				goto nextStart
 			}
 			if accepting[state] {
@@ -356,7 +353,6 @@ func (d *CompositeSequenceDFA) SearchAt(haystack []byte, at int) (int, int, bool
 				if lastAcceptEnd > 0 {
 					return matchStart, lastAcceptEnd, true
 				}
-				start = pos + 2 // Skip: dead byte at pos+3
 				goto nextStart
 			}
 			if accepting[state] {
@@ -393,10 +389,17 @@ func (d *CompositeSequenceDFA) SearchAt(haystack []byte, at int) (int, int, bool
 			return matchStart, lastAcceptEnd, true
 		}
 
-		// Skip: all bytes up to pos already processed, advance outer loop
-		start = pos - 1
-
 	nextStart:
+		// The attempt from matchStart found nothing. Every start inside the same run of
+		// first-part bytes fails too (a match from there could be extended to the left,
+		// all parts being cc+), so the next candidate is the first byte after that run.
+		// Nothing beyond the run may be skipped: a byte consumed by a later part can be
+		// the start of a match when classes overlap ([ab]+[12]+[ab]+[xy]+ on "a1b2ax").
+		skipTo := matchStart + 1
+		for skipTo < n && firstPartClass[haystack[skipTo]] {
+			skipTo++
+		}
+		start = skipTo - 1 // outer loop: start++
 	}
 
 	return -1, -1, false
